@@ -1,7 +1,7 @@
 /-
 C07 — control response bodies follow the DSP0236 response layouts.
 -/
-import Mctp.Lemmas.Encode
+import Mctp.Lemmas.EncodeApi
 import Mctp.Spec.Api
 namespace Mctp
 namespace C07
@@ -11,21 +11,28 @@ theorem header (c : Ctx) (dst : B) (e : Enc) (buf buf' fields : Bytes) (cmd cc :
     (hf : Spec.respFields c.respEid e = some (cmd, cc, fields))
     (h : encode c dst e buf = .ok (buf', n)) :
     Spec.sub (buf'.take n) 9 12 = [0x00#8, cmd, cc] := by
-  sorry
+  obtain ⟨t, hd, d, hb, -, -, hn, hp⟩ := encode_ok_take h
+  rw [hp, packetPre_cons, respFields_body hf hb]
+  simp [Spec.sub]
 
 /-- for Success the remaining bytes are exactly the command's response fields -/
 theorem success_body (c : Ctx) (dst : B) (e : Enc) (buf buf' fields : Bytes) (cmd cc : B) (n : Nat)
     (hf : Spec.respFields c.respEid e = some (cmd, cc, fields)) (hcc : cc = 0x00#8)
     (h : encode c dst e buf = .ok (buf', n)) :
     Spec.sub (buf'.take n) 12 (n - 1) = fields := by
-  sorry
+  have _ := hcc
+  obtain ⟨t, hd, d, hb, -, -, hn, hp⟩ := encode_ok_take h
+  rw [hp, sub_pre _ _ _ _ (by rw [packetPre_length, hn]; omega), packetPre_cons, respFields_body hf hb]
+  rfl
 
 /-- (stronger, what the code does) the fields follow every completion code -/
 theorem body_any_cc (c : Ctx) (dst : B) (e : Enc) (buf buf' fields : Bytes) (cmd cc : B) (n : Nat)
     (hf : Spec.respFields c.respEid e = some (cmd, cc, fields))
     (h : encode c dst e buf = .ok (buf', n)) :
     Spec.sub (buf'.take n) 12 (n - 1) = fields := by
-  sorry
+  obtain ⟨t, hd, d, hb, -, -, hn, hp⟩ := encode_ok_take h
+  rw [hp, sub_pre _ _ _ _ (by rw [packetPre_length, hn]; omega), packetPre_cons, respFields_body hf hb]
+  rfl
 
 end C07
 end Mctp
